@@ -19,6 +19,9 @@ type Prim struct {
 	R        float64
 	Min, Max [3]float64
 	Neg      bool
+	// Closed: the box contains its faces (x >= Min && x <= Max).  The default is
+	// the open box.
+	Closed bool
 }
 
 // Shape: a point is inside iff the last primitive containing it is positive.
@@ -39,7 +42,11 @@ func (p *Prim) contains(x [3]float64, dim int) bool {
 		return d < p.R*p.R
 	}
 	for i := 0; i < dim; i++ {
-		if !(x[i] > p.Min[i] && x[i] < p.Max[i]) {
+		if p.Closed {
+			if !(x[i] >= p.Min[i] && x[i] <= p.Max[i]) {
+				return false
+			}
+		} else if !(x[i] > p.Min[i] && x[i] < p.Max[i]) {
 			return false
 		}
 	}
@@ -76,6 +83,15 @@ func (p *Prim) decided(a, b [3]float64, dim int) bool {
 	}
 	inside := true
 	for i := 0; i < dim; i++ {
+		if p.Closed {
+			if b[i] < p.Min[i] || a[i] > p.Max[i] {
+				return true // disjoint from the closed box
+			}
+			if !(a[i] >= p.Min[i] && b[i] <= p.Max[i]) {
+				inside = false
+			}
+			continue
+		}
 		if b[i] <= p.Min[i] || a[i] >= p.Max[i] {
 			return true // disjoint
 		}
@@ -182,6 +198,25 @@ func Gen(src *choice.Source, dim int) *Shape {
 					}
 				}
 			}
+		}
+		s.Prims = append(s.Prims, p)
+	}
+	return s
+}
+
+// GenDyadic2 draws a 2-D shape of closed and open boxes whose faces lie on
+// multiples of 1/8, so that with a power-of-two raster scale and a dyadic canvas
+// pixel edges, filter-tile edges and the solid's own faces coincide exactly in
+// floating point (sub-samples then fall exactly on faces).
+func GenDyadic2(src *choice.Source) *Shape {
+	s := &Shape{Dim: 2, Delta: 0.125, Aligned: true}
+	n := 1 + src.Intn(3)
+	for k := 0; k < n; k++ {
+		p := Prim{Closed: !src.Chance(1, 3), Neg: k > 0 && src.Chance(1, 3)}
+		for i := 0; i < 2; i++ {
+			lo := src.Intn(12) - 6
+			p.Min[i] = float64(lo) / 8
+			p.Max[i] = float64(lo+1+src.Intn(10)) / 8
 		}
 		s.Prims = append(s.Prims, p)
 	}
